@@ -153,7 +153,10 @@ def rule_displ(prog: Program) -> List[Instance]:
         # consecutive pairs: zip(c[:-1], c[1:]) or zip(c, c[1:]) (zip stops at the shorter one)
         zip_ok = isinstance(z, ast.Call) and call_name(z) == "zip" and len(z.args) == 2 and short(z.args[1]).endswith("[1:]") and short(z.args[0]) in (short(z.args[1])[:-4] + "[:-1]", short(z.args[1])[:-4])
         ok = ok and zip_ok
-    out.append(Instance("R-DISPL", f"{d.qual}#vertices-retained", OK if ok else BAD,
+    if not seeds or not loops:
+        out.append(Instance("R-DISPL", f"{d.qual}#vertices-retained", UNDET, "densify does not build its result as `[first] + loop appending each edge's end point` (generator / helper): not read", d.where()))
+    else:
+      out.append(Instance("R-DISPL", f"{d.qual}#vertices-retained", OK if ok else BAD,
                         "first vertex seeds the output and every edge's end vertex is appended unconditionally" if ok else "original vertices are not all retained in order (seed / unconditional append of the end point / consecutive pairs)", d.where()))
     # interpolation distances: start at resolution, step resolution, strictly inside the segment
     wl = [n for n in walk_own(d.node) if isinstance(n, ast.While)]
@@ -171,7 +174,7 @@ def rule_displ(prog: Program) -> List[Instance]:
     # the dispatch lives in a nested closure or in a private helper segmented() calls
     seg_parts = {g.qual: g for g, _n in prog.closure_nodes(seg) if g is not seg}
     seg_parts.update({nf.qual: nf for nf in seg.nested.values()})
-    kinds = {c.value for nf in seg_parts.values() for c in ast.walk(nf.node) if isinstance(c, ast.Constant) and isinstance(c.value, str) and c.value[:1].isupper() and " " not in c.value}
+    kinds = {c.value for nf in list(seg_parts.values()) + [seg] for c in ast.walk(nf.node) if isinstance(c, ast.Constant) and isinstance(c.value, str) and c.value[:1].isupper() and " " not in c.value}
     need = {"Point", "MultiPoint", "GeometryCollection", "MultiPolygon", "MultiLineString", "LineString", "LinearRing", "Polygon"}
     out.append(Instance("R-EXHAUST", f"{seg.qual}#geometry-kinds", OK if need <= kinds else BAD,
                         "all eight shapely geometry kinds are dispatched" if need <= kinds else f"geometry kinds not handled: {sorted(need - kinds)}", seg.where()))
@@ -180,10 +183,27 @@ def rule_displ(prog: Program) -> List[Instance]:
         for n in walk_own(nf.node):
             if isinstance(n, ast.Call) and call_name(n) == "Polygon" and len(n.args) == 2:
                 a0, a1 = (expand_locals(nf.node, a) for a in n.args)  # rings may be named locals first
+                if isinstance(a0, ast.Name) and isinstance(a1, ast.Name):
+                    # shell, *holes = (densify(ring.coords, resolution) for ring in chain([g.exterior], g.interiors))
+                    for a_ in walk_own(nf.node):
+                        if isinstance(a_, ast.Assign) and isinstance(a_.targets[0], (ast.Tuple, ast.List)) and {a0.id, a1.id} <= {x.id for x in ast.walk(a_.targets[0]) if isinstance(x, ast.Name)} \
+                                and isinstance(a_.value, (ast.GeneratorExp, ast.ListComp)) and len(a_.value.generators) == 1:
+                            it_txt = short(a_.value.generators[0].iter, 300)
+                            if has_call(a_.value.elt, "densify") and "exterior" in it_txt and "interiors" in it_txt and all(short(c.args[1]) == "resolution" for c in ast.walk(a_.value.elt) if isinstance(c, ast.Call) and call_name(c) == "densify" and len(c.args) > 1):
+                                poly_ok = True
+                    if poly_ok:
+                        continue
+                    has_poly_ctor = False  # rings reach the constructor through locals this clause does not follow
+                    continue
                 poly_ok = has_call(a0, "densify") and "exterior" in short(a0) and has_call(a1, "densify") and "interiors" in short(a1)
                 res_ok = all(short(c.args[1]) == "resolution" for a_ in (a0, a1) for c in ast.walk(a_) if isinstance(c, ast.Call) and call_name(c) == "densify" and len(c.args) > 1)
                 poly_ok = poly_ok and res_ok
-    out.append(Instance("R-DISPL", f"{seg.qual}#polygon-rings", OK if poly_ok else BAD,
+    seg_parts[seg.qual] = seg
+    has_poly_ctor = poly_ok or any(isinstance(n, ast.Call) and call_name(n) == "Polygon" and len(n.args) == 2 and not all(isinstance(a, ast.Name) for a in n.args) for nf in seg_parts.values() for n in walk_own(nf.node))
+    if not has_poly_ctor:
+        out.append(Instance("R-DISPL", f"{seg.qual}#polygon-rings", UNDET, "no two-argument Polygon(exterior, interiors) construction found in segmented or its helpers", seg.where()))
+    else:
+      out.append(Instance("R-DISPL", f"{seg.qual}#polygon-rings", OK if poly_ok else BAD,
                         "exterior and every interior ring are densified with the same resolution" if poly_ok else "polygon branch does not densify both the exterior and the interior rings with the resolution", seg.where()))
     ret = [n for n in walk_own(seg.node) if isinstance(n, ast.Return) and isinstance(n.value, ast.Call) and call_name(n.value) == "Geometry"]
     ok = bool(ret) and len(ret[0].value.args) == 2 and short(ret[0].value.args[1]) == f"{seg.self_name}.crs"
@@ -213,7 +233,7 @@ def _corner_sets(fi: FuncInfo) -> List[Tuple[ast.AST, FrozenSet[Tuple[str, str]]
                         axis[e.id] = a
     out = []
     for n in walk_own(fi.node):
-        if isinstance(n, ast.List) and len(n.elts) >= 2 and all(isinstance(e, ast.Tuple) and len(e.elts) == 2 for e in n.elts):
+        if isinstance(n, (ast.List, ast.Tuple)) and len(n.elts) >= 2 and all(isinstance(e, ast.Tuple) and len(e.elts) == 2 for e in n.elts):
             pts = set()
             ok = True
             for e in n.elts:
@@ -244,6 +264,12 @@ def _minmax_box(fi: FuncInfo, ret: ast.Call) -> Tuple[bool, str]:
                 for i, e in enumerate(g.target.elts):
                     if isinstance(e, ast.Name) and e.id == n.value.elt.id:
                         comp[n.targets[0].id] = i
+        # xx, yy = zip(*<points>): first / second component of every point
+        if isinstance(n, ast.Assign) and isinstance(n.targets[0], ast.Tuple) and len(n.targets[0].elts) == 2 and isinstance(n.value, ast.Call) and call_name(n.value) == "zip" \
+                and len(n.value.args) == 1 and isinstance(n.value.args[0], ast.Starred):
+            for i, e in enumerate(n.targets[0].elts):
+                if isinstance(e, ast.Name):
+                    comp[e.id] = i
     want = [("min", 0), ("min", 1), ("max", 0), ("max", 1)]
     got = []
     for a in ret.args[:4]:
@@ -264,8 +290,9 @@ def rule_corners(prog: Program) -> List[Instance]:
         if not cs:
             # two-corner form: transform * (0,0) and transform * shape.xy
             n_tr = sum(1 for n in walk_own(f.node) if isinstance(n, ast.BinOp) and isinstance(n.op, ast.Mult) and "transform" in short(n.left))
-            out.append(Instance("R-CORNERS", f"{f.qual}#corners", BAD,
-                                f"no four-corner list found ({n_tr} point(s) pushed through the transform): a rotated or sheared raster's extreme corners are missed", f.where()))
+            out.append(Instance("R-CORNERS", f"{f.qual}#corners", BAD if 2 <= n_tr <= 3 else UNDET,
+                                f"no four-corner list found ({n_tr} point(s) pushed through the transform): a rotated or sheared raster's extreme corners are missed" if 2 <= n_tr <= 3 else
+                                "corner points are not given as a literal list of four (x, y) pairs: not decided", f.where()))
             continue
         node, pts = max(cs, key=lambda x: len(x[1]))
         sets[f.qual] = pts
@@ -283,7 +310,7 @@ def rule_corners(prog: Program) -> List[Instance]:
             out.append(Instance("R-CORNERS", f"{q}#minmax", BAD if q.endswith("from_transform") else UNDET, "result is not BoundingBox(min(xs), min(ys), max(xs), max(ys))", f.where()))
             continue
         ok, got = _minmax_box(f, rets[0])
-        out.append(Instance("R-CORNERS", f"{q}#minmax", OK if ok else BAD,
+        out.append(Instance("R-CORNERS", f"{q}#minmax", OK if ok else (UNDET if "?" in got else BAD),
                             "box = (min x, min y, max x, max y) over the projected corners" if ok else f"box built from {got}", f.where(rets[0])))
     # BoundingBox.points: all four combinations
     bp = prog.func("geom:BoundingBox.points")
@@ -368,7 +395,9 @@ def rule_lattice(prog: Program) -> List[Instance]:
         # some other spelling of the normalisation (one rebuild guarded by both comparisons, conditional expressions per bound ..)?
         def _cmp_pair(c: ast.AST, a: str, b: str) -> bool:
             return isinstance(c, ast.Compare) and len(c.ops) == 1 and isinstance(c.ops[0], (ast.Gt, ast.GtE, ast.Lt, ast.LtE)) and {a, b} <= {short(x).split(".")[-1] for x in [c.left, c.comparators[0]]}
-        other = any(_cmp_pair(c, "left", "right") for _g, c in prog.closure_nodes(gi)) and any(_cmp_pair(c, "bottom", "top") for _g, c in prog.closure_nodes(gi))
+        def _mm_pair(c: ast.AST, a: str, b: str) -> bool:
+            return isinstance(c, ast.Call) and call_name(c) in ("max", "min") and len(c.args) == 2 and {a, b} <= {short(x).split(".")[-1] for x in c.args}
+        other = any(_cmp_pair(c, "left", "right") or _mm_pair(c, "left", "right") for _g, c in prog.closure_nodes(gi)) and any(_cmp_pair(c, "bottom", "top") or _mm_pair(c, "bottom", "top") for _g, c in prog.closure_nodes(gi))
         out.append(Instance("R-LATTICE", f"{gi.qual}#empty-normalisation", UNDET if other else BAD,
                             "both axes compare their lower with their upper bound, but not in the two-rebuild form this clause reads" if other else
                             "intersection of disjoint geoboxes is no longer normalised to an empty geobox on both axes", gi.where()))
@@ -654,16 +683,22 @@ def rule_fill(prog: Program) -> List[Instance]:
     ok = bool(fv) and [short(a) for a in fv[0].args[:2]] == ["dst_nodata", "src_nodata"]
     out.append(Instance("R-FILL", f"{dr.qual}#uncovered-chunk-fill", OK if ok else BAD,
                         "uncovered chunks use resolve_fill_value(dst_nodata, src_nodata, dtype)" if ok else "uncovered chunks do not use resolve_fill_value(dst_nodata, src_nodata, ...)", dr.where()))
-    full = [n for n in walk_own(dr.node) if isinstance(n, ast.Tuple) and n.elts and short(n.elts[0]) in ("np.full", "numpy.full")]
+    dr_nodes = [n for g_ in [dr] + list(dr.nested.values()) for n in walk_own(g_.node)]
+    full = [n for n in dr_nodes if isinstance(n, ast.Tuple) and n.elts and short(n.elts[0]) in ("np.full", "numpy.full")]
     fv_name = None
-    for n in walk_own(dr.node):
+    for n in dr_nodes:
         if isinstance(n, ast.Assign) and isinstance(n.targets[0], ast.Name) and isinstance(n.value, ast.Call) and call_name(n.value) == "resolve_fill_value":
             fv_name = n.targets[0].id
     ok = bool(full) and len(full[0].elts) >= 3 and fv_name is not None and short(full[0].elts[2]) == fv_name
     out.append(Instance("R-FILL", f"{dr.qual}#uncovered-chunk-task", OK if ok else BAD, "chunk without sources is (np.full, shape, fill_value, dtype)" if ok else "chunk without sources is not a constant fill block", dr.where()))
-    get = [n for n in walk_own(dr.node) if isinstance(n, ast.Call) and call_name(n) == "get" and "d2s" in short(n.func)]
+    get = [n for n in dr_nodes if isinstance(n, ast.Call) and call_name(n) == "get" and len(n.args) == 2 and isinstance(n.func, ast.Attribute)
+           and any(isinstance(a_, ast.Assign) and isinstance(a_.value, ast.Call) and call_name(a_.value) == "grid_intersect" and short(n.func.value) in {short(t_) for t_ in a_.targets} for a_ in dr_nodes)]
+    get = get or [n for n in dr_nodes if isinstance(n, ast.Call) and call_name(n) == "get" and "d2s" in short(n.func)]
     ok = bool(get) and len(get[0].args) == 2 and isinstance(get[0].args[1], (ast.List, ast.Tuple)) and not get[0].args[1].elts
-    out.append(Instance("R-FILL", f"{dr.qual}#missing-deps-default", OK if ok else BAD, "missing dependency entry means no sources" if ok else "dependency lookup no longer defaults to an empty source list", dr.where()))
+    if not get:
+        out.append(Instance("R-FILL", f"{dr.qual}#missing-deps-default", UNDET, "no `.get(idx, <default>)` lookup on the dependency map found", dr.where()))
+    else:
+      out.append(Instance("R-FILL", f"{dr.qual}#missing-deps-default", OK if ok else BAD, "missing dependency entry means no sources" if ok else "dependency lookup no longer defaults to an empty source list", dr.where()))
     # direction: destination tiles intersect source tiles
     gi = [n for n in walk_own(dr.node) if isinstance(n, ast.Call) and call_name(n) == "grid_intersect"]
     ok = False
@@ -727,7 +762,8 @@ def rule_sibling(prog: Program) -> List[Instance]:
         out.append(Instance("R-SIBLING", f"{q}#attrs-pruned", OK if filt else BAD,
                             "attributes are filtered through SPATIAL_ATTRIBUTES" if filt else "stale spatial attributes (crs, grid_mapping, ...) of the source are not pruned at this level", f.where()))
         # (iii) source CRS coordinate removed
-        drop = any(isinstance(n, ast.Call) and call_name(n) == "_is_spatial_ref" for nf in list(f.nested.values()) + [f] for n in walk_own(nf.node))
+        drop = any(isinstance(n, ast.Call) and call_name(n) == "_is_spatial_ref" for nf in list(f.nested.values()) + [f] for n in walk_own(nf.node)) \
+            or any(isinstance(n, ast.Call) and call_name(n) == "_is_spatial_ref" for _g, n in prog.closure_nodes(f))
         if not drop:
             org = Origins(f)
             for n in walk_own(f.node):
